@@ -12,6 +12,7 @@
   c07.facts  sequencer.go  =>  <6 bools> <maxInitialRandomSequenceNumber>
 
   c06.hist   <mtu> <pt> <ssrc> <ts0> <seqStart> <payloader name> <n> op*  =>  <n> opobs*
+             (a padding burst is `G <n> pkt*`, or `Gd <n> (+ pkt | = <seq>)*` when longer than 1024 packets: see `rdPktsDelta`)
      op    = P <payload> <samples> <now:int64 unix ns> <k> <fragment>*     (fragments = what the real
                                                     payloader returned at this call; the model's `pay`)
            | S <skipped> | G <count> | E <id>
@@ -140,6 +141,40 @@ def rdPkt : Rd PktObs := do
          ssrc := ssrc, csrcCount := cc, exts := exts, payload := payload, paddingSize := ps,
          marshalSize := ms, marshal := mar, roundtrip := rt }
 
+/-- `prev` with another sequence number: the field, and octets 2–3 of the wire image -/
+def pktWithSeq (prev : PktObs) (s : UInt16) : Option PktObs :=
+  match prev.marshal with
+  | .ok (a :: b :: _ :: _ :: rest) =>
+    some { prev with seq := s, marshal := .ok (a :: b :: (s >>> 8).toUInt8 :: s.toUInt8 :: rest) }
+  | _ => none
+
+/-- the packets of a LONG padding burst (`Gd`, more than 1024 packets; every burst of the ordinary
+    cases is written in full as `G`): `<n> item*` with `item := + pkt | = <seq>`, where `= s` stands
+    for the packet whose complete observation (every field, MarshalSize, wire bytes, round trip) is
+    that of the preceding packet except for the sequence number `s` — the harness observes every
+    packet in full and writes `=` only after comparing the two observations token by token, so the
+    list read here is exactly the list `G` would have carried (a transport encoding: 65536 packets
+    of 267 bytes are 1 MB instead of 40 MB), and predicate and correspondence see every packet. -/
+def rdPktsDelta : Rd (List PktObs) := fun s =>
+  match Rd.nat s with
+  | none => none
+  | some (n, s) => go n s none #[]
+where
+  go : Nat → List String → Option PktObs → Array PktObs → Option (List PktObs × List String)
+    | 0, s, _, acc => some (acc.toList, s)
+    | n + 1, "+" :: s, _, acc =>
+      match rdPkt s with
+      | some (p, s') => go n s' (some p) (acc.push p)
+      | none => none
+    | n + 1, "=" :: s, some prev, acc =>
+      match Rd.u16 s with
+      | some (q, s') =>
+        match pktWithSeq prev q with
+        | some p => go n s' (some p) (acc.push p)
+        | none => none
+      | none => none
+    | _, _, _, _ => none
+
 def rdPkOp : Rd PkOp := do
   let t ← Rd.tok
   match t with
@@ -161,6 +196,7 @@ def rdPkOpObs : Rd PkOpObs := do
     pure (.packetize c pkts)
   | "S" => pure .skip
   | "G" => do let pkts ← listTR rdPkt; pure (.padding pkts)
+  | "Gd" => do let pkts ← rdPktsDelta; pure (.padding pkts)
   | "E" => pure .enableAbs
   | _ => Rd.fail
 
